@@ -119,6 +119,9 @@ class Gen:
         for _ in range(8):
             k = r.choice([1, 1, 1, 2, 2, 3][:max(1, max_items * 2)])
             items = [r.choice(self.atoms) for _ in range(k)]
+            if r.random() < 0.06:
+                # an element that holds no setting at all ('' / ';' / an empty list)
+                items[r.randrange(k)] = r.choice(['e:empty', 'e:semi', 'e:semis', []])
             shape = r.random()
             if shape < 0.55:
                 spec = items
@@ -142,6 +145,8 @@ class Gen:
             for c in cell:
                 if c not in present:
                     present.append(c)
+        if r.random() < 0.07:
+            return r.choice([['e:empty'], ['e:semi'], [[]], 'e:empty', ['e:empty', []]])
         cand = [i for i in self.atoms if any(c in present for c in atoms.CATALOGUE[i].codes)]
         if cand and r.random() < 0.75:
             k = 1 if r.random() < 0.7 else 2
